@@ -132,6 +132,7 @@ func init() {
 			{Name: "rcall-multi-n2", KQuick: -1, KThor: -1, Gen: c04Gen(graphOpts{N: 2, MaxMult: 3, Extras: true, DistMenu: true})},
 			{Name: "rcall-dev-n5", KQuick: 3, KThor: 4, Gen: c04Gen(graphOpts{N: 5, MaxMult: 2, Extras: true, DistMenu: true})},
 			{Name: "rcall-full-n4", KQuick: -1, KThor: -1, Gen: c04Gen(graphOpts{N: 4, MaxMult: 1})},
+			{Name: "through-coca-call-rcall-count", KQuick: 1, KThor: 2, Gen: cliGraphGen},
 		},
 	})
 }
